@@ -191,6 +191,12 @@ def verdict(atom, tup):
             # NO somewhere and RANGE somewhere: either complaint is legitimate
             rng_no.append(ov)
     if exact:
+        pure = [ov for ov in exact if all(classify(ov["ps"][i], tup[i]) == "EXACT" for i in range(n))]
+        if not pure and (grey or rng):
+            # only a coercion constructor matches, while another overload could take the value
+            # through a standard (possibly narrowing) conversion, which C++ ranks above the
+            # user-defined one: implicit numeric conversions are not specified by the property
+            return ("unjudged", "coerce-vs-conversion")
         typing = []
         for i in range(n):
             t = ctype_of(tup[i], [ov["ps"][i] for ov in exact])
